@@ -1,2 +1,441 @@
-//! Syscall interposition (filled in by the trace checks).
-pub fn note_callback(_id: u64, _ok: bool) {}
+//! libc symbol interposition inside the harness binary: observes, gates and can fail
+//! the file-system calls that raft-log makes (through std and fs2), without any hook
+//! in the crate. One global controller: trace cases run one at a time per process.
+
+use std::collections::HashMap;
+use std::ffi::CStr;
+use std::os::raw::{c_char, c_int, c_void};
+use std::sync::{Condvar, Mutex};
+use std::time::{Duration, Instant};
+
+#[derive(Clone, Debug)]
+pub struct Fault {
+    pub kind: String, // write | sync | unlink
+    pub skip: u64,    // how many matching worker calls to let pass first
+}
+
+pub struct Ctl {
+    pub enabled: bool,
+    pub dir: String,
+    pub log: Vec<String>,
+    pub gate_armed: bool,
+    pub permits: u64,
+    pub at_gate: bool,
+    pub events_done: u64,
+    pub faults: Vec<Fault>,
+    pub fdmap: HashMap<i32, String>, // fd -> "id" of a chunk file, or "LOCK"
+    pub hold_unlink_ms: u64,
+}
+
+pub static CTL: Mutex<Option<Ctl>> = Mutex::new(None);
+pub static CV: Condvar = Condvar::new();
+
+thread_local! {
+    static IN_SHIM: std::cell::Cell<bool> = const { std::cell::Cell::new(false) };
+}
+
+fn role() -> &'static str {
+    let t = std::thread::current();
+    match t.name() {
+        Some("raft_log_wal_flush_worker") => "w",
+        Some(n) if n.starts_with("reader") => "r",
+        _ => "c",
+    }
+}
+
+pub fn start(dir: &str) {
+    let mut g = CTL.lock().unwrap();
+    *g = Some(Ctl {
+        enabled: true,
+        dir: dir.to_string(),
+        log: Vec::new(),
+        gate_armed: true,
+        permits: 0,
+        at_gate: false,
+        events_done: 0,
+        faults: Vec::new(),
+        fdmap: HashMap::new(),
+        hold_unlink_ms: 0,
+    });
+}
+
+pub fn stop() -> Vec<String> {
+    let mut g = CTL.lock().unwrap();
+    let log = g.as_mut().map(|c| std::mem::take(&mut c.log)).unwrap_or_default();
+    if let Some(c) = g.as_mut() {
+        c.enabled = false;
+        c.gate_armed = false;
+    }
+    CV.notify_all();
+    log
+}
+
+pub fn logline(s: String) {
+    let mut g = CTL.lock().unwrap();
+    if let Some(c) = g.as_mut() {
+        if c.enabled {
+            c.log.push(s);
+        }
+    }
+}
+
+pub fn add_fault(kind: &str, skip: u64) {
+    let mut g = CTL.lock().unwrap();
+    if let Some(c) = g.as_mut() {
+        c.faults.push(Fault { kind: kind.to_string(), skip });
+    }
+}
+
+pub fn set_gate(armed: bool) {
+    let mut g = CTL.lock().unwrap();
+    if let Some(c) = g.as_mut() {
+        c.gate_armed = armed;
+    }
+    CV.notify_all();
+}
+
+/// Let the worker perform one visible event. Returns false when the worker does not
+/// show up at the gate within `idle_ms` (it is idle).
+pub fn worker_step(idle_ms: u64) -> bool {
+    let mut g = CTL.lock().unwrap();
+    let deadline = Instant::now() + Duration::from_millis(idle_ms);
+    loop {
+        let c = g.as_mut().unwrap();
+        if c.at_gate {
+            break;
+        }
+        let now = Instant::now();
+        if now >= deadline {
+            return false;
+        }
+        let (gg, _) = CV.wait_timeout(g, deadline - now).unwrap();
+        g = gg;
+    }
+    let n = g.as_ref().unwrap().events_done;
+    g.as_mut().unwrap().permits += 1;
+    CV.notify_all();
+    // wait for the event to complete ...
+    let hard = Instant::now() + Duration::from_secs(20);
+    while g.as_ref().unwrap().events_done == n {
+        let (gg, _) = CV.wait_timeout(g, Duration::from_millis(50)).unwrap();
+        g = gg;
+        if Instant::now() > hard {
+            return true;
+        }
+    }
+    // ... and for the worker to reach its next gate (or go idle)
+    let deadline = Instant::now() + Duration::from_millis(idle_ms);
+    while !g.as_ref().unwrap().at_gate {
+        let now = Instant::now();
+        if now >= deadline {
+            break;
+        }
+        let (gg, _) = CV.wait_timeout(g, deadline - now).unwrap();
+        g = gg;
+    }
+    true
+}
+
+/// Wait until the worker is parked at the gate or has been quiet for `idle_ms`.
+pub fn settle(idle_ms: u64) {
+    let mut g = CTL.lock().unwrap();
+    let deadline = Instant::now() + Duration::from_millis(idle_ms);
+    while !g.as_ref().map(|c| c.at_gate).unwrap_or(true) {
+        let now = Instant::now();
+        if now >= deadline {
+            break;
+        }
+        let (gg, _) = CV.wait_timeout(g, deadline - now).unwrap();
+        g = gg;
+    }
+}
+
+/// Called by a gated event of the worker thread before it acts. Returns Some(fail?)
+/// when tracing, None when tracing is off.
+fn gate_worker(kind: &str) -> Option<bool> {
+    let mut g = CTL.lock().unwrap();
+    if !g.as_ref().map(|c| c.enabled).unwrap_or(false) {
+        return None;
+    }
+    if g.as_ref().unwrap().gate_armed {
+        g.as_mut().unwrap().at_gate = true;
+        CV.notify_all();
+        loop {
+            let c = g.as_mut().unwrap();
+            if !c.gate_armed || !c.enabled {
+                break;
+            }
+            if c.permits > 0 {
+                c.permits -= 1;
+                break;
+            }
+            g = CV.wait(g).unwrap();
+        }
+        g.as_mut().unwrap().at_gate = false;
+    }
+    // fault decision
+    let c = g.as_mut().unwrap();
+    let mut fail = false;
+    let mut i = 0;
+    while i < c.faults.len() {
+        if c.faults[i].kind == kind {
+            if c.faults[i].skip == 0 {
+                fail = true;
+                c.faults.remove(i);
+                break;
+            } else {
+                c.faults[i].skip -= 1;
+                // only the first matching fault entry counts this call
+                break;
+            }
+        }
+        i += 1;
+    }
+    Some(fail)
+}
+
+fn event_done(line: String, worker: bool) {
+    let mut g = CTL.lock().unwrap();
+    if let Some(c) = g.as_mut() {
+        if c.enabled {
+            c.log.push(line);
+            if worker {
+                c.events_done += 1;
+            }
+        }
+    }
+    CV.notify_all();
+}
+
+pub fn note_callback(id: u64, ok: bool) {
+    let r = role();
+    if r == "w" {
+        if gate_worker("cb").is_none() {
+            return;
+        }
+        event_done(format!("w cb {} {}", id, if ok { "ok" } else { "fail" }), true);
+    } else {
+        logline(format!("{} cb {} {}", r, id, if ok { "ok" } else { "fail" }));
+    }
+}
+
+fn tracked(fd: c_int) -> Option<String> {
+    let g = CTL.lock().unwrap();
+    match g.as_ref() {
+        Some(c) if c.enabled => c.fdmap.get(&fd).cloned(),
+        _ => None,
+    }
+}
+
+fn chunk_of_path(path: &str) -> Option<String> {
+    let g = CTL.lock().unwrap();
+    let c = g.as_ref()?;
+    if !c.enabled || !path.starts_with(&c.dir) {
+        return None;
+    }
+    let name = path.rsplit('/').next()?;
+    if name == "LOCK" {
+        return Some("LOCK".to_string());
+    }
+    crate::proto::parse_chunk_name(name).map(|id| id.to_string())
+}
+
+unsafe fn set_errno(e: c_int) {
+    *libc::__errno_location() = e;
+}
+
+fn guard<T>(f: impl FnOnce() -> T, fallback: impl FnOnce() -> T) -> T {
+    let nested = IN_SHIM.try_with(|c| c.replace(true)).unwrap_or(true);
+    if nested {
+        return fallback();
+    }
+    let r = f();
+    let _ = IN_SHIM.try_with(|c| c.set(false));
+    r
+}
+
+#[no_mangle]
+pub unsafe extern "C" fn open64(path: *const c_char, flags: c_int, mode: libc::mode_t) -> c_int {
+    let raw = || libc::syscall(libc::SYS_openat, libc::AT_FDCWD, path, flags | libc::O_LARGEFILE, mode as c_int) as c_int;
+    guard(
+        || {
+            let p = CStr::from_ptr(path).to_string_lossy().to_string();
+            let what = chunk_of_path(&p);
+            let fd = raw();
+            if let Some(id) = what {
+                let creat = flags & libc::O_CREAT != 0 && flags & libc::O_EXCL != 0;
+                let mut g = CTL.lock().unwrap();
+                if let Some(c) = g.as_mut() {
+                    if fd >= 0 {
+                        c.fdmap.insert(fd, id.clone());
+                    }
+                    if id != "LOCK" && creat {
+                        c.log.push(format!("{} create {} {}", role(), id, if fd >= 0 { "ok" } else { "fail" }));
+                    } else if id == "LOCK" {
+                        c.log.push(format!("{} openlock {}", role(), if fd >= 0 { "ok" } else { "fail" }));
+                    }
+                }
+            }
+            fd
+        },
+        raw,
+    )
+}
+
+#[no_mangle]
+pub unsafe extern "C" fn open(path: *const c_char, flags: c_int, mode: libc::mode_t) -> c_int {
+    open64(path, flags, mode)
+}
+
+#[no_mangle]
+pub unsafe extern "C" fn close(fd: c_int) -> c_int {
+    let raw = || libc::syscall(libc::SYS_close, fd) as c_int;
+    guard(
+        || {
+            if let Ok(mut g) = CTL.try_lock() {
+                if let Some(c) = g.as_mut() {
+                    c.fdmap.remove(&fd);
+                }
+            }
+            raw()
+        },
+        raw,
+    )
+}
+
+#[no_mangle]
+pub unsafe extern "C" fn write(fd: c_int, buf: *const c_void, count: libc::size_t) -> libc::ssize_t {
+    let raw = || libc::syscall(libc::SYS_write, fd, buf, count) as libc::ssize_t;
+    guard(
+        || match tracked(fd) {
+            Some(id) if id != "LOCK" => {
+                let r = role();
+                if r == "w" {
+                    let fail = gate_worker("write").unwrap_or(false);
+                    let res = if fail {
+                        set_errno(libc::EIO);
+                        -1
+                    } else {
+                        raw()
+                    };
+                    event_done(format!("w write {} {} {}", id, count, if res >= 0 && res as usize == count { "ok".to_string() } else if res >= 0 { format!("short{}", res) } else { "fail".to_string() }), true);
+                    res
+                } else {
+                    let res = raw();
+                    event_done(format!("{} write {} {} {}", r, id, count, if res >= 0 { "ok" } else { "fail" }), false);
+                    res
+                }
+            }
+            _ => raw(),
+        },
+        raw,
+    )
+}
+
+unsafe fn sync_common(fd: c_int, nr: libc::c_long, name: &str) -> c_int {
+    let raw = || libc::syscall(nr, fd) as c_int;
+    guard(
+        || match tracked(fd) {
+            Some(id) if id != "LOCK" => {
+                let r = role();
+                if r == "w" {
+                    let fail = gate_worker("sync").unwrap_or(false);
+                    let res = if fail {
+                        set_errno(libc::EIO);
+                        -1
+                    } else {
+                        raw()
+                    };
+                    event_done(format!("w {} {} {}", name, id, if res == 0 { "ok" } else { "fail" }), true);
+                    res
+                } else {
+                    let res = raw();
+                    event_done(format!("{} {} {} {}", r, name, id, if res == 0 { "ok" } else { "fail" }), false);
+                    res
+                }
+            }
+            _ => raw(),
+        },
+        raw,
+    )
+}
+
+#[no_mangle]
+pub unsafe extern "C" fn fdatasync(fd: c_int) -> c_int {
+    sync_common(fd, libc::SYS_fdatasync, "sync")
+}
+
+#[no_mangle]
+pub unsafe extern "C" fn fsync(fd: c_int) -> c_int {
+    sync_common(fd, libc::SYS_fsync, "fsync")
+}
+
+#[no_mangle]
+pub unsafe extern "C" fn ftruncate64(fd: c_int, len: libc::off64_t) -> c_int {
+    let raw = || libc::syscall(libc::SYS_ftruncate, fd, len) as c_int;
+    guard(
+        || match tracked(fd) {
+            Some(id) if id != "LOCK" => {
+                let res = raw();
+                event_done(format!("{} trunc {} {} {}", role(), id, len, if res == 0 { "ok" } else { "fail" }), false);
+                res
+            }
+            _ => raw(),
+        },
+        raw,
+    )
+}
+
+#[no_mangle]
+pub unsafe extern "C" fn ftruncate(fd: c_int, len: libc::off_t) -> c_int {
+    ftruncate64(fd, len)
+}
+
+#[no_mangle]
+pub unsafe extern "C" fn unlink(path: *const c_char) -> c_int {
+    let raw = || libc::syscall(libc::SYS_unlinkat, libc::AT_FDCWD, path, 0) as c_int;
+    guard(
+        || {
+            let p = CStr::from_ptr(path).to_string_lossy().to_string();
+            match chunk_of_path(&p) {
+                Some(id) if id != "LOCK" => {
+                    let r = role();
+                    if r == "w" {
+                        let fail = gate_worker("unlink").unwrap_or(false);
+                        let res = if fail {
+                            set_errno(libc::EIO);
+                            -1
+                        } else {
+                            raw()
+                        };
+                        event_done(format!("w unlink {} {}", id, if res == 0 { "ok" } else { "fail" }), true);
+                        res
+                    } else {
+                        let res = raw();
+                        event_done(format!("{} unlink {} {}", r, id, if res == 0 { "ok" } else { "fail" }), false);
+                        res
+                    }
+                }
+                _ => raw(),
+            }
+        },
+        raw,
+    )
+}
+
+#[no_mangle]
+pub unsafe extern "C" fn flock(fd: c_int, op: c_int) -> c_int {
+    let raw = || libc::syscall(libc::SYS_flock, fd, op) as c_int;
+    guard(
+        || match tracked(fd) {
+            Some(id) if id == "LOCK" => {
+                let res = raw();
+                let what = if op & libc::LOCK_UN != 0 { "unlock" } else { "lock" };
+                event_done(format!("{} flock {} {}", role(), what, if res == 0 { "ok" } else { "fail" }), false);
+                res
+            }
+            _ => raw(),
+        },
+        raw,
+    )
+}
